@@ -2,6 +2,7 @@ import LeptosModel.Proofs.RViewMain
 import LeptosModel.Proofs.RViewShow
 import LeptosModel.Proofs.RViewTop
 import LeptosModel.Proofs.RViewQuiet
+import LeptosModel.Proofs.RViewMRun
 /-!
 # C04 — a mounted reactive view always settles to the render of current state
 
@@ -13,18 +14,46 @@ open Leptos.Reactive
 
 /-! ## `C04_settles` -/
 
-/-- **full statement** — OPEN (kept visible, not proved): for every well-formed program of the modelled
-grammar, every history of writes / polls / disposal, at every idle point the DOM below the mount root is
-the fresh render for the current values.
-Proved stages: `C04_settles` = `C04_settles_for` (static structure, dynamic leaves, `either`, `<For>`,
-nested arbitrarily, over signals).  Remaining: dynamic parts that read memos (`…_memo`) and `<Show>`
-(`…_show`, a memo over the boolean) — both need convergence lemmas of the reactive core at the level of
-states (tolerating disposed effects and definitions added during the run; `C02_effects_converge_readonly`
-is about whole runs of a fixed program without lifecycle operations).  Covered by correspondence. -/
-def C04_settles_full : Prop :=
-  ∀ (p : Program) (ops : List Op), p.wf = true →
-    (run p ops).disposed = false → ready (run p ops) = [] →
-    (run p ops).dom = render (run p ops).env p.view
+/-- **full statement**: for EVERY well-formed program of the grammar — definitions: signals and memos
+(memos over memos, any tracked expressions); view: static text, `()`, elements with static / reactive
+attributes, classes and styles, tuples, `move ||` text, `move || Either`, `<Show>` (an `ArcMemo` over the
+truth value in front of an `Either`) and `<For>` (the keyed diff of C11), nested arbitrarily; every dynamic
+part reads signals and memos through arbitrary expressions (`ite` = dynamic dependencies) — and EVERY
+history of signal writes, polls of any ready task in any order (tasks of dropped effects and of effects
+still alive inside a dropped branch included), `idle` runs and the disposal of the mount handle: at every
+idle point the serialised DOM below the mount root is the from-scratch render of the view for the current
+values of the signals (memos at their from-scratch values).
+
+Proof: the reactive graph satisfies the reactive core's state invariant `TopC` (C01/C02/C09:
+`Proofs/ReactiveConv.lean`, state-level lemmas `Proofs/ReactiveState2.lean`, `Proofs/ReactivePush.lean`) with
+the dropped render effects as its dead set, through every creation (`TopC.createRenderEffect`, `TopC.push`),
+run (`TopC.consume`, `BusyState.effUpdate`, `EffUpdPostC.noRun`/`runEffBody`), disposal (`TopC.dispose`) and
+write (`TopC.set`); the DOM phase of a re-run starts at a quiescent state.  The state tree shows what its
+effects stored (`GoodM`, `EM`); an effect that is not notified has stored the from-scratch value of its
+body (`TopC.effect_val`); hence `serialize = render` when no task is ready (`GoodM.serialize_eq`).
+Views with component-local state (`scope`, `forRows`) are outside `View.wf`; they are covered by
+correspondence. -/
+theorem C04_settles_full (p : Program) (ops : List Op) (hw : p.wf = true)
+    (hd : (run p ops).disposed = false) (hidle : ready (run p ops) = []) :
+    (run p ops).dom = render (run p ops).env p.view := by
+  have hw' := hw
+  simp only [Program.wf, Bool.and_eq_true] at hw'
+  rcases InvDM.run hw (wf_coreS p.view hw'.2) ops with h | h
+  · rw [h.1] at hd; cases hd
+  · exact h.2.settled hidle
+
+/-- (a) dynamic parts that read MEMOS (named stage: an instance of `C04_settles_full`; no `allSigs`) -/
+theorem C04_settles_memo (p : Program) (ops : List Op) (hw : p.wf = true) (hc : p.view.core = true)
+    (hd : (run p ops).disposed = false) (hidle : ready (run p ops) = []) :
+    (run p ops).dom = render (run p ops).env p.view :=
+  have _ := hc
+  C04_settles_full p ops hw hd hidle
+
+/-- (b) `<Show>` anywhere in the view (named stage: an instance of `C04_settles_full`) -/
+theorem C04_settles_show (p : Program) (ops : List Op) (hw : p.wf = true)
+    (hd : (run p ops).disposed = false) (hidle : ready (run p ops) = []) :
+    (run p ops).dom = render (run p ops).env p.view :=
+  C04_settles_full p ops hw hd hidle
 
 /-- **nested dynamic parts over signals** — unconditional: for every program whose definitions are
 signals and whose view is built from static structure (text, `()`, elements, tuples), dynamic leaves
@@ -254,6 +283,26 @@ example :
       [(⟨0, 1⟩, []), (⟨1, 9⟩, [2, 3, 4, 5]), (⟨2, 1⟩, [3]), (⟨6, 0⟩, [3]), (⟨3, 1⟩, [3]), (⟨7, 0⟩, [3]),
        (⟨4, 1⟩, [3]), (⟨8, 0⟩, [3]), (⟨5, 0⟩, [3]), (⟨10, 1⟩, [4, 5]), (⟨13, 0⟩, [4, 5]),
        (⟨11, 1⟩, [4, 5]), (⟨14, 0⟩, [4, 5]), (⟨12, 0⟩, [4, 5])] := by decide +kernel
+
+/-- non-vacuity of `C04_settles_full` beyond signals: memos over memos, a `Show` over a memo, a class and an
+`either` over memos; partial polling in between (the history passes through non-idle states with four
+ready tasks); none of the earlier stages applies (`allSigs` and `core` fail) -/
+def memoProg : Program :=
+  { defs := [.sig 1, .sig 2, .memo (.add (.rd true 0) (.rd true 1)), .memo (.mulc 2 (.rd true 2))],
+    view := .seq (.show (.rd true 2) (.dynText (.rd true 3)) (.text "no"))
+      (.elem "p" [.cls "on" (.rd true 3)] (.either (.rd true 2) (.dynText (.add (.rd true 2) (.rd true 0))) .unit)) }
+
+def memoOps : List Op := [.idle, .set 0 (-2), .poll 1, .set 1 5, .poll 0, .idle, .set 0 (-5), .idle]
+
+example : memoProg.wf = true ∧ allSigs memoProg.defs = false ∧ memoProg.view.core = false ∧
+    (run memoProg memoOps).disposed = false ∧ ready (run memoProg memoOps) = [] ∧
+    ready (run memoProg (memoOps.take 5)) = [5, 7, 9, 8] ∧
+    (run memoProg [.idle]).dom =
+      [.text (.int 6), .open "p" [.cls "on" true], .text (.int 4), .close] ∧
+    (run memoProg (memoOps.take 6)).dom =
+      [.text (.int 6), .open "p" [.cls "on" true], .text (.int 1), .close] ∧
+    (run memoProg memoOps).dom =
+      [.text (.lit "no"), .open "p" [.cls "on" false], .comment, .close] := by decide +kernel
 
 /-- the model with component-local state (`View.scope`, `View.forRows`: outside the class of the theorems,
 checked by correspondence): every row's component body creates a memo over an outer signal and the key;
